@@ -450,7 +450,11 @@ deck commands, deck stopped at the end) of histories in which at least one edge 
 
     if let Some(text) = &o.replay {
         rep.sample(J::s(c11::truncate(text, 400)));
-        if text.starts_with("earport") {
+        if text.starts_with("assets") {
+            let k = text.split_whitespace().find_map(|kv| kv.strip_prefix("k=")).and_then(|x| x.parse().ok()).unwrap_or(0);
+            let seed = text.split_whitespace().find_map(|kv| kv.strip_prefix("seed=")).and_then(|x| x.parse().ok()).unwrap_or(o.seed);
+            asset_kinds(o, &mut rep, Some((seed, k)));
+        } else if text.starts_with("earport") {
             let t: Vec<&str> = text.split_whitespace().collect();
             ear_frozen_at_port(o, &mut rep, Some((t.get(1) == Some(&"128"), t.get(2).and_then(|x| x.parse().ok()).unwrap_or(5000))));
         } else if text.starts_with("system") {
@@ -548,6 +552,7 @@ deck commands, deck stopped at the end) of histories in which at least one edge 
     // 3. the frozen level as the program sees it: with the deck stopped anywhere in the waveform, bit 6 of the
     // ULA port keeps the level whatever the program writes to the speaker/MIC bits meanwhile
     ear_frozen_at_port(o, &mut rep, None);
+    asset_kinds(o, &mut rep, None);
     rep.extra.push(("histories".into(), J::I(n as i64)));
     rep.extra.push(("model_requests".into(), J::I((model.requests + m10.requests) as i64)));
     rep
@@ -609,6 +614,137 @@ fn ear_frozen_at_port(o: &Opts, rep: &mut Report, only: Option<(bool, usize)>) {
                 expected: format!("{} every time", level),
             });
             return;
+        }
+    }
+}
+
+/// The deck's behaviour for a command history does not depend on which of the shipped host asset
+/// implementations holds the tape ("for all tapes"): the same history on the same bytes held in memory
+/// (the reference, the asset the layers above compare with the model), in a `BufferCursor`, in a
+/// `rustzx_utils::io::FileAsset` over a real file and in a `GzipAsset` must give the same EAR trace.
+fn deck_trace<H: rustzx_core::host::Host>(e: &mut rustzx_core::Emulator<H>, hist: &[(u8, u64)]) -> Vec<(u64, u8)> {
+    let mut out = vec![];
+    let mut step: u64 = 0;
+    let mut level = e.verif_read_io(0x7FFE) & 0x40;
+    out.push((0, level));
+    for (op, n) in hist {
+        match op {
+            0 => e.play_tape(),
+            1 => e.stop_tape(),
+            2 => e.rewind_tape().unwrap_or(()),
+            _ => {
+                let mut left = *n;
+                while left > 0 {
+                    let d = left.min(211);
+                    e.verif_wait(d as usize);
+                    left -= d;
+                    step += 1;
+                    let lv = e.verif_read_io(0x7FFE) & 0x40;
+                    if lv != level {
+                        out.push((step, lv));
+                        level = lv;
+                    }
+                }
+            }
+        }
+        out.push((step, 0x80 | (e.verif_read_io(0x7FFE) & 0x40)));
+    }
+    out
+}
+
+fn asset_kinds(o: &Opts, rep: &mut Report, only: Option<(u64, usize)>) {
+    use crate::c16::env::{DCtx, Deliv, Emu as DEmu};
+    use crate::host::*;
+    let seed = only.map(|x| x.0).unwrap_or(o.seed);
+    for k in 0..o.n(10, 120) as usize {
+        if let Some((_, kk)) = only {
+            if kk != k {
+                continue;
+            }
+        }
+        let mut rng = Rng::new(seed ^ 0xA55E7 ^ ((k as u64) << 20));
+        let m128 = k % 2 == 1;
+        // 2-4 short blocks of different lengths and flags, so that a pass starting anywhere else looks different
+        let nb = 2 + rng.below(3) as usize;
+        let mut tap = vec![];
+        let mut pass_t: u64 = 0;
+        for i in 0..nb {
+            let len = 2 + i + rng.below(4) as usize;
+            let mut b = vec![if i % 2 == 0 { 0xFF } else { 0x00 }];
+            b.extend(rng.bytes(len - 1));
+            tap.extend_from_slice(&(b.len() as u16).to_le_bytes());
+            tap.extend_from_slice(&b);
+            pass_t += (if b[0] < 128 { 8063 } else { 3223 }) * 2168 + 1402 + b.len() as u64 * 8 * 3420 + 3_500_000;
+        }
+        // history: passes separated by rewinds (explicit while playing, explicit while stopped, or running off the end)
+        let mut hist: Vec<(u8, u64)> = vec![];
+        let passes = 2 + rng.below(3);
+        for _ in 0..passes {
+            hist.push((0, 0));
+            match rng.below(4) {
+                0 => {
+                    hist.push((3, pass_t + 200_000));
+                }
+                1 => {
+                    hist.push((3, rng.below(pass_t)));
+                    hist.push((2, 0));
+                }
+                2 => {
+                    hist.push((3, rng.below(pass_t)));
+                    hist.push((1, 0));
+                    hist.push((3, rng.below(50_000)));
+                    hist.push((2, 0));
+                }
+                _ => {
+                    hist.push((3, rng.below(9_000_000)));
+                    hist.push((2, 0));
+                    hist.push((3, rng.below(30_000)));
+                }
+            }
+        }
+        hist.push((0, 0));
+        hist.push((3, pass_t.min(9_000_000 + rng.below(8_000_000))));
+        let reference = {
+            let mut e = emu(&Cfg::new(m128));
+            let _ = e.load_tape(rustzx_core::host::Tape::Tap(VAsset::new(tap.clone())));
+            deck_trace(&mut e, &hist)
+        };
+        for d in [Deliv::File, Deliv::Gzip, Deliv::Whole] {
+            let got: Result<Vec<(u64, u8)>, String> = (|| {
+                let mut e: DEmu = rustzx_core::Emulator::new(settings(&Cfg::new(m128)), DCtx).map_err(|_| "Emulator::new failed".to_string())?;
+                e.load_tape(rustzx_core::host::Tape::Tap(d.make(&tap)?)).map_err(|e| format!("load_tape: {:?}", e))?;
+                Ok(deck_trace(&mut e, &hist))
+            })();
+            rep.eval();
+            rep.class(format!("asset kind {} m128={} passes={}", d.class(), m128, passes));
+            let bad = match &got {
+                Err(e) => Some(e.clone()),
+                Ok(t) if *t != reference => {
+                    let i = t.iter().zip(reference.iter()).position(|(a, b)| a != b).unwrap_or(t.len().min(reference.len()));
+                    Some(format!(
+                        "trace entry {} (step of 211 T, EAR bit; 0x80 marks the end of a command): {:?} with this asset, {:?} with the tape in memory ({} / {} entries)",
+                        i,
+                        t.get(i),
+                        reference.get(i),
+                        t.len(),
+                        reference.len()
+                    ))
+                }
+                _ => None,
+            };
+            if let Some(b) = bad {
+                let hs: Vec<String> = hist.iter().map(|(op, n)| match op { 0 => "play".into(), 1 => "stop".into(), 2 => "rewind".into(), _ => format!("run {}", n) }).collect();
+                rep.violation(Violation {
+                    kind: Kind::SpecViolated,
+                    key: format!("C12/asset/{}", d.class()),
+                    what: format!("{}: tape of {} blocks held in asset implementation '{}', history [{}]: {}", if m128 { "128K" } else { "48K" }, nb, d.class(), hs.join(", "), b),
+                    correspondence: "corr.C12.component (the deck's behaviour is a function of the tape bytes and the command history)".into(),
+                    case: J::obj(vec![("text", J::s(format!("assets seed={} k={}", seed, k)))]),
+                    implementation: b,
+                    expected: "the trace of the same history on the same bytes held in memory".into(),
+                });
+                return;
+            }
         }
     }
 }
